@@ -47,6 +47,25 @@ pub fn channels<T: DeserializeOwned + Serialize + 'static>(text: &str) -> Vec<(&
         let (a, b) = (t.as_bytes()[..at].to_vec(), t.as_bytes()[at..].to_vec());
         out.push((name, show(guarded(move || Json::from_reader::<_, T>(std::io::Cursor::new(a).chain(std::io::Cursor::new(b)))))));
     }
+    // the wrapper's own readers of raw bytes (they try the layout reader, then the link reader - what the
+    // untagged wrapper does through serde)
+    // They are the layout reader and then the link reader, each reading the text itself (the serde wrapper
+    // first builds a tree of the text, which not every text has): what they answer is what `from_str` of the
+    // layout type, or else of the link type, answers on the very same text - in every spelling. Where that is
+    // so, the channel is entered with the wrapper's own `from_str` answer; where not, with what it said.
+    if std::any::TypeId::of::<T>() == std::any::TypeId::of::<MetadataWrapper>() {
+        let seq = show(guarded({
+            let t = t.clone();
+            move || serde_json::from_str::<LayoutMetadata>(&t).map(MetadataWrapper::Layout).or_else(|_| serde_json::from_str::<LinkMetadata>(&t).map(MetadataWrapper::Link))
+        }));
+        let first = out[0].1.clone();
+        for (name, ans) in [
+            ("MetadataWrapper::try_from_bytes", show(guarded({ let t = t.clone(); move || MetadataWrapper::try_from_bytes(t.as_bytes()) }))),
+            ("MetablockBuilder::from_raw_metadata", show(guarded({ let t = t.clone(); move || in_toto::models::MetablockBuilder::from_raw_metadata(t.as_bytes()).map(|b| b.build().metadata) }))),
+        ] {
+            out.push((name, if ans == seq { first.clone() } else { format!("NOT-LAYOUT-THEN-LINK: {} (the layout reader, then the link reader: {})", ans.chars().take(60).collect::<String>(), seq.chars().take(60).collect::<String>()) }));
+        }
+    }
     out
 }
 
@@ -374,6 +393,32 @@ pub fn run(cfg: &Cfg) {
         let link = gen_link(&mut r, None);
         let kj = serde_json::to_value(&link).unwrap();
         case::<LinkMetadata>(&mut sink, &mut r, "LinkMetadata", &kj);
+        case::<MetadataWrapper>(&mut sink, &mut r, "MetadataWrapper(link)", &kj);
+        if i % 4 == 0 {
+            // documents whose `_type` member says one thing and whose members say another: a layout labelled
+            // "link", a link labelled "layout", the members of both under either label, no label at all
+            let mut a = lj.clone();
+            a["_type"] = Value::String("link".into());
+            case::<MetadataWrapper>(&mut sink, &mut r, "MetadataWrapper(layout-labelled-link)", &a);
+            let mut b = kj.clone();
+            b["_type"] = Value::String("layout".into());
+            case::<MetadataWrapper>(&mut sink, &mut r, "MetadataWrapper(link-labelled-layout)", &b);
+            let mut both = lj.clone();
+            if let (Value::Object(m), Value::Object(k)) = (&mut both, &kj) {
+                for (name, v) in k {
+                    if !m.contains_key(name) {
+                        m.insert(name.clone(), v.clone());
+                    }
+                }
+            }
+            for label in ["link", "layout"] {
+                both["_type"] = Value::String(label.into());
+                case::<MetadataWrapper>(&mut sink, &mut r, "MetadataWrapper(members-of-both)", &both);
+            }
+            let mut none = kj.clone();
+            none.as_object_mut().unwrap().remove("_type");
+            case::<MetadataWrapper>(&mut sink, &mut r, "MetadataWrapper(no-label)", &none);
+        }
         let key = r.pick(&pool);
         let mb = Metablock::new(MetadataWrapper::Layout(layout.clone()), &[&key.key]).unwrap();
         case::<Metablock>(&mut sink, &mut r, "Metablock", &serde_json::to_value(&mb).unwrap());
